@@ -135,6 +135,36 @@ func coldProbes() map[string]func() string {
 	}
 	// every known product (and some unknown ids) asked in an order that is neither ascending nor grouped by family, then again
 	// in another order: what a product gets does not depend on who was asked before
+	// the accessors of the product table asked for known products in an order that is not ascending, several rounds, in a fresh
+	// process: every answer agrees with type + model and with the exported map, whoever was asked before
+	m["product.any-order"] = func() string {
+		var ids []int
+		for id := 0; id < 65536; id++ {
+			if veproduct.Product(id).Exists() {
+				ids = append(ids, id)
+			}
+		}
+		sm := veproduct.GetStringMap()
+		bad := 0
+		var sb strings.Builder
+		for round := 0; round < 4; round++ {
+			for k := range ids {
+				id := ids[(k*7919+round*31)%len(ids)]
+				if round == 3 {
+					id = ids[len(ids)-1-k]
+				}
+				p := veproduct.Product(id)
+				str := p.String()
+				if str != p.Type().String()+" "+p.Model() || str != sm[p] {
+					bad++
+				}
+				if round == 3 {
+					fmt.Fprintf(&sb, "%d=%s/%d/%d;", id, str, p.MaxPanelVoltage(), p.MaxPanelCurrent())
+				}
+			}
+		}
+		return fmt.Sprintf("inconsistent=%d %016X", bad, fnv64([]byte(sb.String())))
+	}
 	m["reglist.any-order"] = func() string {
 		var ids []int
 		for id := 0; id < 65536; id++ {
